@@ -85,6 +85,9 @@ type scn struct {
 	broken     int                 // 0 ok 1 content-type 2 accept 3 query 4 body
 	cancelAt   int                 // >0: the request context is cancelled while the k-th authenticator consultation runs
 	flow       int                 // 0 full handler 1 accessor sequence
+	undefined  map[string]bool     // named by a requirement but absent from securityDefinitions (a typo or a rename in the description)
+	front      string              // flow 2: what the application middleware does before the operation executor: A = Authorize, R = ResetAuth
+	reauth     bool                // flow 1: after a successful Authorize the caller drops the result (ResetAuth) and authorizes again
 }
 
 func (s *scn) String() string {
@@ -105,7 +108,7 @@ func (s *scn) String() string {
 		}
 		outs = append(outs, fmt.Sprintf("%s%s=%s(granted %v)", n, reg, []string{"n/a", "accept", "accept-nil", "reject", "reject+principal"}[s.outcome[n]], s.granted[n]))
 	}
-	return fmt.Sprintf("security=%s global=%v outcomes=[%s] authorizer=%d broken=%d flow=%d", strings.Join(alts, " OR "), s.global, strings.Join(outs, " "), s.authz, s.broken, s.flow)
+	return fmt.Sprintf("security=%s global=%v outcomes=[%s] authorizer=%d broken=%d flow=%d front=%q reauth=%v", strings.Join(alts, " OR "), s.global, strings.Join(outs, " "), s.authz, s.broken, s.flow, s.front, s.reauth)
 }
 
 func generate(t *kernel.Tape) *scn {
@@ -142,6 +145,19 @@ func generate(t *kernel.Tape) *scn {
 	s.flow = t.Choose(3, "flow")
 	if t.Bool(6, "context-cancelled-during-authentication") {
 		s.cancelAt = 1 + t.Choose(3, "cancel-at-consultation")
+	}
+	s.undefined = map[string]bool{}
+	if t.Bool(5, "undefined-scheme") {
+		name := s.schemes[t.Choose(len(s.schemes), "which-undefined")]
+		s.undefined[name] = true
+		s.registered[name] = false // nothing can be looked up for a name the description does not define
+	}
+	s.front = "A"
+	if s.flow == 2 {
+		s.front = []string{"A", "R", "AR", "RA", "ARA", ""}[t.Weighted("front-program", 3, 2, 2, 2, 2, 1)]
+	}
+	if s.flow == 1 && s.cancelAt == 0 {
+		s.reauth = t.Bool(3, "authorize-again-after-reset")
 	}
 	return s
 }
@@ -193,6 +209,9 @@ func (prop) Run(t *testing.T, tape *kernel.Tape, sc kernel.Scenario) *kernel.Res
 	// ---- API description
 	api := &simapi.API{BasePath: "/api", Consumes: []string{"application/json"}, Produces: []string{"application/json"}, SecDefs: map[string]map[string]any{}}
 	for _, n := range s.schemes {
+		if s.undefined[n] {
+			continue
+		}
 		api.SecDefs[n] = simapi.APIKeyDef("X-Key-" + n)
 	}
 	op := simapi.Op{Method: "POST", Path: "/secure/{id}", ID: "secured", Params: []simapi.Param{
@@ -271,8 +290,16 @@ func (prop) Run(t *testing.T, tape *kernel.Tape, sc kernel.Scenario) *kernel.Res
 			return http.HandlerFunc(func(w http.ResponseWriter, r *http.Request) {
 				if route, rr, ok := ctx.RouteInfo(r); ok {
 					r = rr
-					if _, ra, err := ctx.Authorize(r, route); err == nil && ra != nil {
-						r = ra
+					for _, step := range s.front {
+						switch step {
+						case 'A':
+							if _, ra, err := ctx.Authorize(r, route); err == nil && ra != nil {
+								r = ra
+							}
+						case 'R':
+							// e.g. a front middleware that does not trust a principal set further upstream
+							r = ctx.ResetAuth(r)
+						}
 					}
 				}
 				next.ServeHTTP(w, r)
@@ -368,6 +395,10 @@ func markFaults(env *kernel.Env, s *scn) {
 			}
 		}
 		if !used {
+			continue
+		}
+		if s.undefined[n] {
+			env.Fault("undefined-scheme")
 			continue
 		}
 		if !s.registered[n] {
@@ -492,6 +523,25 @@ func serve(env *kernel.Env, s *scn, ctx *middleware.Context, handler http.Handle
 			if rAuth != nil {
 				r = rAuth
 			}
+			if s.reauth {
+				r0 := ctx.ResetAuth(r)
+				if p := middleware.SecurityPrincipalFrom(r0); p != nil {
+					env.Violate("C02/principal-mismatch", "after-reset", "after ResetAuth the request context still carries principal %v", p)
+				}
+				before := consultations
+				princ2, r2, err2 := ctx.Authorize(r0, route)
+				switch {
+				case err2 != nil:
+					env.Violate("C02/second-authorize-differs", "error", "Authorize admitted the request with principal %v; after ResetAuth the same request is refused: %v", princ, err2)
+				case princ2 != princ:
+					env.Violate("C02/second-authorize-differs", "principal", "Authorize admitted the request with principal %v; after ResetAuth it is admitted with principal %v", princ, princ2)
+				case princ != nil && consultations == before:
+					env.Violate("C02/second-authorize-differs", "nobody-consulted", "after ResetAuth the request was admitted with principal %v without any scheme being consulted", princ2)
+				}
+				if r2 != nil {
+					r = r2
+				}
+			}
 			o.principal, o.hasPrinc = princ, true
 			if p := middleware.SecurityPrincipalFrom(r); p != princ {
 				env.Violate("C02/principal-mismatch", "context-vs-return", "Authorize returned %v, the request context carries %v", princ, p)
@@ -601,6 +651,9 @@ func judge(env *kernel.Env, s *scn, o observed, slot *simapi.Obs, order string) 
 		sig := cause(s, anon, consultedErr)
 		if s.flow == 2 {
 			sig = "after-an-earlier-rejected-authorize"
+			if s.front != "A" {
+				sig = "front-middleware-program-" + s.front
+			}
 		}
 		env.Violate("C02/admitted-without-satisfied-alternative", sig,
 			"order %s: request was admitted (authorizer calls %d, handler ran %d, status %d) although no alternative is satisfied (consulted %v)", order, slot.AuthzCalls, slot.HandlerRan, o.status, slot.AuthCalls)
